@@ -394,6 +394,35 @@ def attrLookup (present : List String) (attr : String) : AttrRes :=
       else .empty
     | none => .noSuchAttribute
 
+/-- the colour attributes: attribute ↦ (HDF5 group, colour key of the `rgb_to_detectors` constructor option) -/
+def colourTable : List (String × String × String) :=
+  [("red_photon_count", "Photon count", "Red"),
+   ("green_photon_count", "Photon count", "Green"),
+   ("blue_photon_count", "Photon count", "Blue"),
+   ("red_photon_time_tags", "Photon Time Tags", "Red"),
+   ("green_photon_time_tags", "Photon Time Tags", "Green"),
+   ("blue_photon_time_tags", "Photon Time Tags", "Blue")]
+
+/-- the mapping used when the option is not given (`_get_detector_mapping`) -/
+def defaultDetectors : List (String × String) := [("Red", "Red"), ("Green", "Green"), ("Blue", "Blue")]
+
+/-- `File(name, rgb_to_detectors=m)` / `File.from_h5py(h5, rgb_to_detectors=m)`: a colour attribute reads, in its own
+    group, the dataset of the detector its colour is mapped to (`_get_photon_count`, `_get_photon_time_tags`; a missing
+    key or dataset is the swallowed `KeyError`); every other attribute does not look at the mapping -/
+def attrLookupM (m : List (String × String)) (present : List String) (attr : String) : AttrRes :=
+  match colourTable.lookup attr with
+  | some (g, c) =>
+    match m.lookup c with
+    | some d => if present.contains (g ++ "/" ++ d) then .path (g ++ "/" ++ d) else .empty
+    | none => .empty
+  | none => attrLookup present attr
+
+/-- `[k₁, v₁, k₂, v₂, …]` ↦ `[(k₁, v₁), (k₂, v₂), …]` (protocol encoding of a dict) -/
+def pairUp {α} : List α → Option (List (α × α))
+  | [] => some []
+  | [_] => none
+  | k :: v :: rest => (pairUp rest).map ((k, v) :: ·)
+
 def showAttrRes : AttrRes → String
   | .empty => "empty"
   | .path p => "path " ++ p
@@ -472,6 +501,14 @@ def handle : List String → Option String
     -- present: list of code-point lists; attr: a plain token
     let present ← Proto.listListOf? nat? present
     some (showAttrRes (attrLookup (present.map fun p => String.ofList (p.map Char.ofNat)) attr))
+  | ["c05.attrm", mapping, present, attr] => do
+    -- mapping: `N` (option not given) or code-point lists colour, detector, colour, detector, …
+    let present ← Proto.listListOf? nat? present
+    let str := fun (p : List Nat) => String.ofList (p.map Char.ofNat)
+    let m ← if mapping == "N" then some defaultDetectors else do
+      let ws ← Proto.listListOf? nat? mapping
+      pairUp (ws.map str)
+    some (showAttrRes (attrLookupM m (present.map str) attr))
   | ["c05.dtu", rate] => do
     let r ← float? rate
     some (toString (periodOfRateUnfixed r))
